@@ -157,6 +157,11 @@ class Engine:
             if isinstance(s, ast.If):
                 c = fv.to_bool(fv.ev(s.test, st, False))
                 rest = stmts[i + 1:]
+                cs_ = z3.simplify(c)
+                if z3.is_true(cs_):
+                    return self.spec_block(fv, list(s.body) + rest, st)
+                if z3.is_false(cs_):
+                    return self.spec_block(fv, list(s.orelse) + rest, st)
                 s1 = st.fork()
                 s1.guards = st.guards + [c]
                 a = self.spec_block(fv, list(s.body) + rest, s1)
@@ -194,6 +199,47 @@ class Engine:
         body = self.spec_body_value(fv, st, sd, argvals)
         eq = fv.to_bool(fv.compare(st, ast.Eq(), app, body, call_node, False))
         st.assume(eq)
+
+    def compute(self, fv, st, call_node):
+        """evaluate a spec application on concrete integer arguments by its defining equations
+        (memoised); assumes  f(args) == value  for it and every instance met on the way"""
+        if not (isinstance(call_node, ast.Call) and isinstance(call_node.func, ast.Name) and call_node.func.id in self.db.specs):
+            raise VerifError("compute expects a spec application")
+        sd = self.db.specs[call_node.func.id]
+        args = []
+        for a in call_node.args:
+            v = z3.simplify(fv.as_int(fv.ev(a, st, False)).e)
+            if not z3.is_int_value(v):
+                raise VerifError("compute: argument %s is not a concrete integer" % ast.unparse(a))
+            args.append(v.as_long())
+        val = self.compute_concrete(fv, sd, tuple(args))
+        f = self.spec_uf(sd)
+        st.assume(f(*[z3.IntVal(a) for a in args]) == val)
+
+    def compute_concrete(self, fv, sd, args):
+        memo = self.__dict__.setdefault("_compute_memo", {})
+        key = (sd.name, args)
+        if key in memo:
+            return memo[key]
+        import sys
+
+        sys.setrecursionlimit(max(sys.getrecursionlimit(), 20000))
+        s = State()
+        for v, (n, ty) in zip(args, sd.params):
+            if ty[0] != "int":
+                raise VerifError("compute: only integer specs")
+            s.env[n] = SInt(v)
+        saved = fv.computing
+        fv.computing = True
+        try:
+            val = self.spec_block(fv, sd.body, s)
+        finally:
+            fv.computing = saved
+        e = z3.simplify(fv.as_int(val).e)
+        if not z3.is_int_value(e):
+            raise VerifError("compute: %s%r did not reduce to a value" % (sd.name, args))
+        memo[key] = e.as_long()
+        return memo[key]
 
     # ---------------------------------------------------------------- module globals
     def module_global(self, modname, name, st, fv):
@@ -286,6 +332,14 @@ class Engine:
             if prog and not fv.ghost_mode:
                 raise VerifError("program code calls spec function")
             argvals = [fv.ev(a, st, False) for a in node.args]
+            if fv.computing:
+                cargs = []
+                for v in argvals:
+                    e = z3.simplify(fv.as_int(v).e)
+                    if not z3.is_int_value(e):
+                        raise VerifError("compute: non-concrete nested argument")
+                    cargs.append(e.as_long())
+                return self.wrap_ret(obj.ret, z3.IntVal(self.compute_concrete(fv, obj, tuple(cargs))))
             if fv.checking_spec is obj:
                 self.spec_rec_obligation(fv, st, obj, argvals, node)
             return self.spec_app(fv, st, obj, argvals)
